@@ -598,6 +598,30 @@ def s_selrecvp(e, x):
     y = e.out("P"); e.f.selrecv(y, x, q); return y
 
 
+def h_chanworker(P):
+    # goroutine entry with parameters (no captured variables): receives the object in a select whose FIRST case is a
+    # receive from a non-pointer channel, stores the datum through the received pointer, signals completion
+    h = P.func("chanworker", params=[("ch", "chan *box"), ("v", "string"), ("done", "chan string")])
+    h.var("q", "chan bool"); h.var("r", "*box")
+    h.mkchan("q", 0, "bool")
+    h.selrecv("r", "ch", "q")
+    h.fstore("r", "s", "v")
+    h.send("done", "_")
+    return "chanworker"
+
+
+def s_chanhand(e, x):
+    # an object created here is handed to a goroutine through a channel and written there; the creator keeps its own
+    # reference: the data flow crosses the goroutine boundary through the shared object only
+    w = e.helper("chanworker", h_chanworker)
+    o = e.out("P"); e.f.newbox(o)
+    ch = e.tmp("chan *box"); e.f.mkchan(ch, 1, "*box"); e.f.send(ch, o)
+    done = e.tmp("chan string"); e.f.mkchan(done, 1)
+    e.f.go_call(w, [ch, x, done])
+    e.f.recv("_", done)
+    return o
+
+
 def s_sanitize(e, x):
     y = e.out("S"); e.f.sanitize(y, x); return y
 
@@ -1055,6 +1079,7 @@ STEPS = {
     "sendp": ("P", "CHP", "chan", s_sendp),
     "recvp": ("CHP", "P", "chan", s_recvp),
     "selrecvp": ("CHP", "P", "chan", s_selrecvp),
+    "chanhand": ("S", "P", "conc", s_chanhand),   # contains a goroutine: only in the concurrent spaces (C13 / C14)
     "san_ret": ("S", "S", "role", s_san_ret),
     "san_arg": ("S", "S", "role", s_san_arg),
     "san_mix": ("S", "S", "role", s_san_mix),
